@@ -9,7 +9,8 @@ Oracle : history invariants checked after every processed event, from the outgoi
              shares has received exactly one Stop by the end of that processing step;
          (c) no running non-activated flow has a non-running parent; every running activated flow has a running flow that
              contains an `activate` statement for it;
-         (d) while a flow that activated X is running, some instance of X is listening after every step;
+         (d) while the flow that first activated X (the parent of X's restart chain) is running, some instance of X is
+             listening after every step;
          (e) is (c) applied to activated flows: after the last activator ended no instance of X is running.
 """
 from hypothesis import strategies as st
@@ -35,7 +36,7 @@ WALL = {"quick": 170, "thorough": 1500}
 
 
 def budget(tier):
-    return 4000 if tier == "quick" else 60000
+    return 16000 if tier == "quick" else 200000
 
 
 @st.composite
@@ -133,10 +134,14 @@ def _check_step(prev, cur, ledger, outs, activators, text, where):
             acts = activators.get(f["flow_id"], set())
             if not any(cur[r]["flow_id"] in acts for r in running_now):
                 raise Violation("activated-flow-outlives-activators", f"{where}: activated flow {f['flow_id']} is running but no flow containing `activate {f['flow_id']}` is\n{text}")
-            # remember who keeps it alive (for d)
-            for r in running_now:
-                if cur[r]["flow_id"] in acts:
-                    ledger.activation_pairs.add((r, f["flow_id"]))
+            # remember the activator that is observable: the parent of the first instance of the restart chain (for d);
+            # further activators only increase a reference count and cannot be told apart from flows that merely
+            # contain an `activate` statement they have not executed yet
+            anc = f["parent"]
+            while anc in cur and cur[anc]["flow_id"] == f["flow_id"]:
+                anc = cur[anc]["parent"]
+            if anc in cur and cur[anc]["running"] and cur[anc]["flow_id"] in acts:
+                ledger.activation_pairs.add((anc, f["flow_id"]))
         else:
             p = cur.get(f["parent"])
             if p is None or not p["running"]:
